@@ -36,8 +36,9 @@ ASSUMPTIONS = ['gfortran 12 -O0 with run-time checks is the reference semantics'
                'the guard "triggers" = the process ends with a non-zero status after emitting the message the '
                'transformation (or the callback) was asked to emit, before any further output',
                'consistency requirement of the transformation docs is respected by the generator']
-BUDGET_S = {'quick': 400, 'thorough': 3000}
+BUDGET_S = {'quick': 3600, 'thorough': 14400}   # generous: only matters on an overloaded machine
 CASE_TIMEOUT_S = 1800
+WATCHDOG_S = {'quick': 7200, 'thorough': 28800}   # generous: only matters on an overloaded machine
 
 RANGE = {'A': (2, 6), 'B': (2, 5), 'F': (-1, 3)}
 
@@ -163,10 +164,12 @@ def run_case(idx, rng, tier, ctx):
             'replace_by_value': rbv,
             'entry_points': None if entry == 'driver' and rng.random() < 0.6 else (entry,),
             'abort': rng.choice(['default', 'default', 'error_stop', 'call_abort'])}
-    tag = ('rbv' if opts['replace_by_value'] else 'par') + (':upper-case-source' if flags['upper_case'] else '') + \
-        (':kind-suffixed-literals' if rbv and flags['kind_literals'] else '') + \
-        (':same-variable-passed-twice' if 'hazard_same_variable_passed_twice' in case.features else '')
-    feats = sorted(case.features) + [f'abort_{opts["abort"]}', f'entry_{"kernel" if entry != "driver" else ("named" if opts["entry_points"] else "role")}',
+    # gated slices carry one construct with a known / suspected mechanism: keyed by construct + symptom class
+    labels = (['upper-case-source'] if flags['upper_case'] else []) + \
+        (['rbv-kind-suffixed-literals'] if rbv and flags['kind_literals'] else []) + \
+        (['same-variable-passed-twice'] if 'hazard_same_variable_passed_twice' in case.features else [])
+    tag = 'rbv' if opts['replace_by_value'] else 'par'
+    feats = ['slice_' + l for l in labels] + sorted(case.features) + [f'abort_{opts["abort"]}', f'entry_{"kernel" if entry != "driver" else ("named" if opts["entry_points"] else "role")}',
                                      'replace_by_value' if opts['replace_by_value'] else 'parameter_declaration',
                                      f'n_parametrised_{len(sel)}'] + [f'role_{ro}' for ro in sel] + \
         (['negative_value'] if any(v < 0 for v in fixed.values()) else [])
@@ -181,7 +184,8 @@ def run_case(idx, rng, tier, ctx):
     def viol(key, msg, **extra):
         w = dict(witness)
         w.update(extra)
-        res['violations'].append({'key': f'{tag}:{key}', 'msg': msg[:700], 'witness': w})
+        k = f'par:{"+".join(labels)}:{key.split(":")[0]}' if labels else f'{tag}:{key}'
+        res['violations'].append({'key': k, 'msg': msg[:700], 'witness': w})
 
     def inputs(matching):
         vals = {}
